@@ -163,6 +163,10 @@ func VH_C10(p []int) {
 	if len(p) > 6 && p[6] == 1 {
 		cfg.ppf = func(...any) error { return nil }
 	}
+	if len(p) > 6 && p[6] == 2 {
+		// what a validity policy thinks of the content has no bearing on locking
+		cfg.vpf = func(...any) error { return errorf("content not acceptable") }
+	}
 	// the operations: codes by fork, index arguments symbolic in a window
 	ops := make([][]vhOp, T)
 	label := ""
